@@ -21,5 +21,7 @@ func init() {
 		{key: "vm|do_SETUP_WITH", prop: "C02", rule: "C02.R7", show: []string{"*"},
 			prim: []string{"py.GetAttrString", "py.Call", "py.ExceptionNewf"},
 			doc: "with statement entry: __exit__ is looked up and pushed, __enter__ is looked up and called, and only after it returned without error is the finally block pushed and the result pushed — an exception from __enter__ must not run __exit__ [ceval.c SETUP_WITH]"},
+		{key: "compile|Instructions.EndsWithReturn", prop: "C12", rule: "C12.R7", show: []string{"*"},
+			doc: "the implicit `return None` is omitted only when the very last element of the instruction stream is a RETURN_VALUE: a trailing label is a jump target that needs an instruction after it"},
 	}
 }
